@@ -159,7 +159,7 @@ Proof.
   destruct (peek_char st =? 47).
   { apply comment_ok; auto. }
   destruct (peek_char st =? 42).
-  { destruct (read_multi_ok n st Hn) as (l & st1 & R & L & S). rewrite R. cbn [bind].
+  { destruct (read_multi_comment_ok n st Hn Hc) as (l & st1 & R & L & S). rewrite R. cbn [bind].
     edestruct (finish_fresh (mkTok T_COMMENT l ln i) st st1) as (st' & F & K); eauto. ty. }
   apply single_ok; [assumption|assumption|vm_compute; reflexivity].
 Qed.
